@@ -112,7 +112,13 @@ def _try(parser, errors, src):
         signal.setitimer(signal.ITIMER_REAL, 2.0)
         try:
             n = parser.parse_script(src, "fuzz")
-            return ("ok", repr(n)[:200] if False else "node")
+            # every node of a program renders (the parser puts renderings of nodes into syntax error messages; the proof
+            # units assume that rendering a node returned by a sub-parser is total)
+            try:
+                repr(n)
+            except RecursionError:
+                pass      # rendering a very deep tree from the host side is the harness's own recursion, not the parser's
+            return ("ok", "node")
         finally:
             signal.setitimer(signal.ITIMER_REAL, 0)
     except errors.CklSyntaxError as e:
